@@ -69,18 +69,23 @@ pub struct LifeCfg {
     /// cancel the subject's token at the end with this many connections held open
     pub cancel_with_open: Option<usize>,
     pub keep_snapshots: bool,
+    /// accept calls of the subject that are polled once and dropped: (before the accept loops
+    /// start, at the start of every round). Their requests stay queued in the dispatcher until a
+    /// SYN meets them.
+    pub abandoned_accepts: (usize, usize),
 }
 
 impl LifeCfg {
     pub fn describe(&self) -> String {
         format!(
-            "subject[{}] peer[{}] limit={} bound={}s rounds={:?} cancel_with_open={:?}",
+            "subject[{}] peer[{}] limit={} bound={}s rounds={:?} cancel_with_open={:?} abandoned_accepts={:?}",
             self.subject.describe(),
             self.peer.describe(),
             self.limit,
             self.bound / SEC,
             self.rounds,
-            self.cancel_with_open
+            self.cancel_with_open,
+            self.abandoned_accepts
         )
     }
 }
@@ -358,6 +363,26 @@ async fn drive(world: Arc<World>, case_seed: u64, l: Live, cut_soon: bool) {
     world.log.note(format!("conn {conn} driver done"));
 }
 
+/// `n` accept calls that are polled once (the request reaches the dispatcher's channel) and then
+/// dropped, all before the dispatcher task runs again.
+async fn abandon_accepts(world: &Arc<World>, sock: &Arc<SimSocket>, n: usize, counter: &mut u32) {
+    for _ in 0..n {
+        let id = 5_500_000 + *counter;
+        *counter += 1;
+        world.log.api(id, 0, ApiOp::AcceptCall);
+        tokio::select! {
+            biased;
+            r = sock.accept() => {
+                world.log.api(id, 0, ApiOp::AcceptRet(r.as_ref().map(|s| s.remote_addr()).map_err(|e| e.to_string())));
+                world.log.note("an accept that was meant to be abandoned completed");
+                continue;
+            }
+            _ = std::future::ready(()) => {}
+        }
+        world.log.api(id, 0, ApiOp::Cancelled("accept"));
+    }
+}
+
 pub async fn life_scenario(world: Arc<World>, cfg: LifeCfg, case_seed: u64) -> LifeOutcome {
     world.log.keep_tables.store(true, Ordering::Relaxed);
     let mut out = LifeOutcome::default();
@@ -366,6 +391,8 @@ pub async fn life_scenario(world: Arc<World>, cfg: LifeCfg, case_seed: u64) -> L
     let acc_s: Accepted = Arc::new(Mutex::new(BTreeMap::new()));
     let acc_p: Accepted = Arc::new(Mutex::new(BTreeMap::new()));
     let mut bg = Vec::new();
+    let mut abandoned = 0u32;
+    abandon_accepts(&world, &subj.sock, cfg.abandoned_accepts.0, &mut abandoned).await;
     for _ in 0..2 {
         bg.push(tokio::spawn(accept_loop(world.clone(), subj.sock.clone(), 0, case_seed, acc_s.clone())));
         bg.push(tokio::spawn(accept_loop(world.clone(), peer.sock.clone(), 1, case_seed, acc_p.clone())));
@@ -373,6 +400,7 @@ pub async fn life_scenario(world: Arc<World>, cfg: LifeCfg, case_seed: u64) -> L
     let mut next_conn = 0u32;
     for (ri, round) in cfg.rounds.iter().enumerate() {
         world.log.note(format!("round {ri} starts"));
+        abandon_accepts(&world, &subj.sock, cfg.abandoned_accepts.1, &mut abandoned).await;
         let mut lives = Vec::new();
         for (subject_connects, s2p, p2s, how) in &round.conns {
             let conn = next_conn;
@@ -593,6 +621,14 @@ pub fn generate(case_seed: u64) -> (LifeCfg, FaultPlan, String) {
         // a few seconds) + generous slack; virtual time is free
         bound: (inact + 150) * SEC,
         cancel_with_open: if r.chance(0.5) { Some(r.range(0, limit as u64) as usize) } else { None },
+        abandoned_accepts: {
+            let mut a = Prng::new(case_seed ^ 0xABA2_D0);
+            if a.chance(0.35) {
+                (a.range(0, 3) as usize, a.range(0, 2) as usize)
+            } else {
+                (0, 0)
+            }
+        },
         keep_snapshots: false,
     };
     (cfg, plan, desc)
